@@ -32,9 +32,11 @@ Theorem step_ok : forall ord d s,
   inv (step_db ord d s) /\ RI (step_db ord d s).
 Proof.
   intros ord d s I O R K. destruct (known_class_false _ _ _ K) as [_ [EV _]].
-  unfold step_db, step_events, step, step_fuel in *. destruct s as [t rs|t asg wh|t wh|t c|t|t fk].
+  unfold step_db, step_events, step, step_fuel in *. destruct s as [t rs|dst src simple sel|t asg wh|t wh|t c|t|t fk].
   - destruct (exec_insert d t rs) as [[d' ev] r] eqn:E. cbn in *.
     destruct (exec_insert_ok _ _ _ _ _ _ I R E) as [_ H]. exact H.
+  - destruct (exec_insert_select d dst src simple sel) as [[d' ev] r] eqn:E. cbn in *.
+    eapply exec_insert_select_ok; eassumption.
   - destruct (exec_update ord d t asg wh) as [[d' ev] r] eqn:E. cbn in *.
     eapply exec_update_ok; eassumption.
   - destruct (exec_delete (default_fuel d) ord d t wh) as [[d' ev] r] eqn:E. cbn in *.
